@@ -17,6 +17,9 @@ def main():
         res = m.get("check_results", {})
         caught = "; ".join("%s: %s%s" % (p, r["verdict"], (" (" + r["first_failure"].split("]")[0].split("FAIL ")[-1] + "])") if r.get("first_failure") else "") for p, r in sorted(res.items()))
         note = m.get("history", "")
+        if m.get("retired"):
+            caught = "retired"
+            note = m["retired"]
         rows.append("| %s | %s | %s | %s%s |" % (name, m["property"], m["summary"].replace("|", "/")[:230], caught or "not run", (" — " + note) if note else ""))
     print("| seeded change | property | what was changed | result of the quick check |")
     print("|---|---|---|---|")
